@@ -6,6 +6,8 @@ crates/steel-core/src/rvals.rs (`impl Hash for SteelVal`, `SteelHashMap`, `Steel
   * how `visited` is keyed: `should_visit` takes (left, right) and inserts the pair, or takes one
     identity and is called twice joined by `&&` (defect K11a);
   * whether the immutable-vector arm `return false`s when the pair is not to be visited (K11a);
+  * what the list short cut compares (storage+index of the first node only, or also the next pointer) and
+    under which identity lists enter `visited` (K11j);
   * which same-kind arms the worklist `match (left, right)` has (K11b: Rational, BigRational,
     Complex, ByteVector, BoxedFunction);
   * whether zero floats hash alike (K11c), whether hash maps / hash sets hash independently of the
@@ -102,6 +104,38 @@ def main():
         die("the (VectorV, VectorV) arm does not consult should_visit any more")
     info["vector_arm_returns_false_on_revisit"] = vec_false
 
+    # the list arm: the short cut and the identity under which lists are entered into `visited` (K11j)
+    m = find(visit, r"\(ListV\(l\),\s*ListV\(r\)\)\s*=>", "the (ListV, ListV) arm")
+    list_arm = block_after(visit, m.end())
+    m = find(list_arm, r"if\s+(l\.ptr_eq\(&r\)[^{]*)\{\s*continue;", "the short cut of the (ListV, ListV) arm")
+    shortcut = re.sub(r"\s+", " ", m.group(1)).strip()
+    if "storage_ptr_eq" not in shortcut:
+        die("list short cut no longer mentions storage_ptr_eq: " + shortcut)
+    sc_next = re.search(
+        r"\(\s*l\.storage_ptr_eq\(&r\)\s*&&\s*l\.next_ptr_as_usize\(\)\s*==\s*r\.next_ptr_as_usize\(\)\s*\)", shortcut) is not None
+    sc_plain = re.fullmatch(r"l\.ptr_eq\(&r\) \|\| l\.storage_ptr_eq\(&r\)", shortcut) is not None
+    if not sc_next and not sc_plain:
+        die("list short cut has neither the known sound nor the known legacy shape: " + shortcut)
+    # the inner fast path over the elements must use the same condition
+    inner = re.search(r"llist\.storage_ptr_eq\(rlist\)(\s*&&\s*llist\.next_ptr_as_usize\(\)\s*==\s*rlist\.next_ptr_as_usize\(\))?", list_arm)
+    if inner is None:
+        die("the inner fast path of the list arm changed shape")
+    if (inner.group(1) is not None) != sc_next:
+        die("the inner fast path of the list arm and its short cut disagree about the next pointer")
+    m = find(list_arm, r"self\.should_visit\(([^;{]*)\)\s*(?:&&[^{]*)?\{", "should_visit in the list arm")
+    vkey = re.sub(r"\s+", " ", m.group(1))
+    by_head = "l.as_ptr_usize()" in vkey and "identity_tuple" not in list_arm
+    by_tuple = "identity_tuple()" in vkey
+    if by_head == by_tuple:
+        die("list arm: visited key has neither the head-pointer nor the identity_tuple shape: " + vkey)
+    # SteelVal::ptr_eq (eq?) has the same short cut
+    m = find(rv, r"\(ListV\(l\),\s*ListV\(r\)\)\s*=>\s*\{\s*l\.ptr_eq\(r\)", "SteelVal::ptr_eq list arm")
+    pe = rv[m.start():m.start() + 400]
+    pe_next = re.search(r"l\.storage_ptr_eq\(r\)\s*&&\s*l\.next_ptr_as_usize\(\)\s*==\s*r\.next_ptr_as_usize\(\)", pe) is not None
+    info["list_shortcut"] = shortcut
+    info["list_visited_key"] = vkey
+    info["ptr_eq_list_checks_next"] = pe_next
+
     heads = re.findall(r"\(\s*(?:SteelVal::)?(\w+)\((?:\w+)\)\s*,\s*(?:SteelVal::)?(\w+)\((?:\w+)\)\s*\)\s*=>", visit)
     same = sorted({a for a, b in heads if a == b})
     info["same_kind_arms"] = same
@@ -164,6 +198,8 @@ def main():
         "armComplex": arms["Complex"],
         "armByteVector": arms["ByteVector"],
         "armBoxedFunction": arms["BoxedFunction"],
+        "listShortcutChecksNext": sc_next and pe_next,
+        "listVisitedByHead": by_head,
         "hashZeroUnified": zero,
         "hashUnordered": hash_unordered,
         "hashVecUnified": vec_unified,
